@@ -81,7 +81,7 @@ class Chains:
         ops = ["shift_common", "shift_common_v", "append", "update", "filtered", "copy", "reindexed_map",
                "column_stack", "set_update", "get", "items", "common_rowids", "abscissae", "eq", "to_array",
                "append", "update", "filtered", "reindexed_map"]
-        ops += ["extra", "sliced_noargs"]
+        ops += ["extra", "sliced_noargs", "alias"]
         if not big:
             ops += ["reindexed_default", "sparsity", "cube_shape"]
         if nd == 2:
@@ -241,6 +241,27 @@ class Chains:
                 used.add(k)
                 other.append((k, None if rnd.random() < 0.15 else self.rand_rows(n)))
         self.rec.set_update(idx, which, other)
+
+    def op_alias(self, idx, U):
+        """operands that alias the receiver, and index objects where a dict of cells is expected: NumPy's answer does not
+        depend on who owns the memory (a.append(a) is concatenate([A, A]); assigning a's own cells to a changes nothing;
+        A minus A is empty)"""
+        rnd = self.rnd
+        r = rnd.random()
+        other = self.rand_index(U, idx.shape)
+        pick = lambda: idx if rnd.random() < 0.5 else other   # noqa: E731
+        if r < 0.2:
+            self.rec.append(idx, idx)
+        elif r < 0.5:
+            self.rec.update(idx, None, as_index=pick())
+        else:
+            src = pick()
+            which = rnd.choice(["union", "inter", "diff"])
+            if which == "union" and src is not idx:
+                # entry-wise union is only a well-formed index if no row ends up under two values of one column
+                src = canonical(self.iindex, np.where(dense_of(idx) == idx.common, dense_of(other), idx.common), idx.common) \
+                    if idx.shape[0] and all(idx.shape) else idx
+            self.rec.set_update(idx, which, [(k, np.asarray(v).tolist()) for k, v in dict.items(src)], from_index=src)
 
     def op_get(self, idx, U):
         rnd = self.rnd
